@@ -345,13 +345,17 @@ class _rewrite_captured_vars(ast.NodeTransformer):
         return node
 
     def visit_Lambda(self, node: ast.Lambda) -> Any:
-        # Every kind of parameter hides a captured variable of the same name
         a = node.args
+        # Default values are evaluated where the lambda is defined: a captured variable named
+        # like a parameter (`lambda j, cut=cut: ...`) is still the captured one there
+        a.defaults = [self.visit(d) for d in a.defaults]
+        a.kw_defaults = [d if d is None else self.visit(d) for d in a.kw_defaults]
+        # Every kind of parameter hides a captured variable of the same name
         named = a.posonlyargs + a.args + a.kwonlyargs + [x for x in (a.vararg, a.kwarg) if x]
         self._ignore_stack.append([x.arg for x in named])
-        v = super().generic_visit(node)
+        node.body = self.visit(node.body)
         self._ignore_stack.pop()
-        return v
+        return node
 
     def _visit_comprehension(self, node: Any) -> Any:
         """The target variables of a comprehension hide captured variables of the same name,
@@ -467,7 +471,15 @@ class _resolve_called_lambdas(ast.NodeTransformer):
         a = node.args
         names = [x.arg for x in a.posonlyargs + a.args + a.kwonlyargs]
         names += [x.arg for x in (a.vararg, a.kwarg) if x is not None]
-        return self._visit_hiding(names, lambda: self.generic_visit(node))
+        # Default values belong to the enclosing scope
+        a.defaults = [self.visit(d) for d in a.defaults]
+        a.kw_defaults = [d if d is None else self.visit(d) for d in a.kw_defaults]
+
+        def body():
+            node.body = self.visit(node.body)
+            return node
+
+        return self._visit_hiding(names, body)
 
     def _visit_comprehension(self, node: Any) -> Any:
         # The first iterable is evaluated outside the comprehension's scope
